@@ -3,6 +3,7 @@ package vsched
 import (
 	"fmt"
 	"sync"
+	"unsafe"
 )
 
 type muState struct {
@@ -23,11 +24,22 @@ type Mutex struct {
 
 func (m *Mutex) state(s *Sched) *muState {
 	if m.st == nil || m.sch != s {
-		m.st = &muState{id: s.muSeq, label: fmt.Sprintf("mu%d", s.muSeq)}
-		s.muSeq++
+		m.st = s.newMu(uintptr(unsafe.Pointer(m)), "mu")
 		m.sch = s
 	}
 	return m.st
+}
+
+func (s *Sched) newMu(addr uintptr, kind string) *muState {
+	st := &muState{id: s.muSeq, label: fmt.Sprintf("%s%d", kind, s.muSeq)}
+	if id, ok := s.stable[addr]; ok {
+		st.label = id
+	} else {
+		s.unstable = true
+	}
+	s.muSeq++
+	s.mus = append(s.mus, st)
+	return st
 }
 
 func (m *Mutex) Lock() {
@@ -83,6 +95,7 @@ func (m *Mutex) Unlock() {
 	}
 	st.w = false
 	s.cur.drop(st)
+	s.cur.fold("unlock", st.label)
 	s.trace(s.cur, "unlock "+st.label)
 }
 
@@ -114,8 +127,7 @@ type RWMutex struct {
 
 func (m *RWMutex) state(s *Sched) *muState {
 	if m.st == nil || m.sch != s {
-		m.st = &muState{id: s.muSeq, label: fmt.Sprintf("rw%d", s.muSeq)}
-		s.muSeq++
+		m.st = s.newMu(uintptr(unsafe.Pointer(m)), "rw")
 		m.sch = s
 	}
 	return m.st
@@ -149,6 +161,7 @@ func (m *RWMutex) Unlock() {
 	}
 	st.w = false
 	s.cur.drop(st)
+	s.cur.fold("unlock", st.label)
 	s.trace(s.cur, "unlock "+st.label)
 }
 
@@ -180,6 +193,7 @@ func (m *RWMutex) RUnlock() {
 	}
 	st.r--
 	s.cur.drop(st)
+	s.cur.fold("runlock", st.label)
 	s.trace(s.cur, "runlock "+st.label)
 }
 
